@@ -37,6 +37,11 @@ structure Obs where
 structure Cfg where
   limit : Nat      -- 0 = unlimited
   epLimit : Nat    -- 0 = unlimited
+  /-- `true`: the connection runs with exactly these limits (a client made it with these options).  `false`: these are the
+      limits a *server* was configured with and the history is about a connection it accepted: the property promises **at most**
+      the configured limits there — the connection may be stricter (at the reviewed revision accepted connections keep the
+      defaults 1/1 whatever the server's options say) — so a request that waits below the configured limits is no leak. -/
+  exact : Bool := true
   deriving DecidableEq, Repr
 
 structure JState where
@@ -126,7 +131,7 @@ def judgeLine (st0 : JState) (evs : List Ev) (o : Obs) : Except String JState :=
     | _ => pure ()
   -- no leak: whoever still waits (and was not cancelled) is held back by a limit that is really exhausted
   for (id, p) in st.arrivals do
-    if waiting st1 id && !(st.cancelled.contains id) then
+    if st.cfg.exact && waiting st1 id && !(st.cancelled.contains id) then
       let n := count o.running (fun i => pathOf st i == some p)
       let epFull := st.cfg.epLimit != 0 && n ≥ st.cfg.epLimit
       let totFull := st.cfg.limit != 0 && o.running.length ≥ st.cfg.limit
